@@ -851,6 +851,16 @@ func (w *hWorld) structural(orig *hFileSet) {
 		{"missing-provisional-proof-reference", w.nUpdate > 0, func() { delete(fs.provIndex, "provisionalProofFileUri") }},
 		{"superfluous-provisional-proof-reference", w.nUpdate == 0 && fs.provIndex != nil, func() { fs.provIndex["provisionalProofFileUri"] = w.uris["chunk"] }},
 		{"missing-chunk-reference", fs.provIndex != nil, func() { fs.provIndex["chunks"] = []interface{}{} }},
+		// the core index lists creates / recovers (which need deltas from a chunk file) but names no provisional index at
+		// all; the anchor count is what a reader that silently skips them would return
+		{"missing-provisional-index-reference", fs.provIndex != nil && w.nCreate+w.nRecover > 0, func() {
+			delete(fs.core, "provisionalIndexFileUri")
+			fs.provIndex, fs.provProof, fs.ch = nil, nil, nil
+
+			if T.Draw(2, "struct.noprov.count") == 0 && w.nDeact > 0 {
+				fs.count = w.nDeact
+			}
+		}},
 		// counts that disagree between index and proof files, in both directions; the anchor count is set to what
 		// a reader trusting the index (or, alternatively, the proof) would return
 		{"core-proof-recover-count-less", w.nRecover > 0, func() { dropLast(fs.coreProof, "operations", "recover"); fs.count-- }},
@@ -858,6 +868,23 @@ func (w *hWorld) structural(orig *hFileSet) {
 		{"core-proof-deactivate-count-more", w.nDeact > 0, func() { dupLast(fs.coreProof, "operations", "deactivate"); fs.count++ }},
 		{"core-proof-deactivate-count-more-same-anchor-count", w.nDeact > 0, func() { dupLast(fs.coreProof, "operations", "deactivate") }},
 		{"core-proof-deactivate-count-less", w.nDeact > 1, func() { dropLast(fs.coreProof, "operations", "deactivate") }},
+		// two deviations that cancel in the totals: every per-section count still disagrees with the index
+		{"core-proof-recover-less-deactivate-more", w.nRecover > 0 && w.nDeact > 0, func() {
+			dropLast(fs.coreProof, "operations", "recover")
+			dupLast(fs.coreProof, "operations", "deactivate")
+		}},
+		{"core-proof-recover-more-deactivate-less", w.nRecover > 0 && w.nDeact > 0, func() {
+			dupLast(fs.coreProof, "operations", "recover")
+			dropLast(fs.coreProof, "operations", "deactivate")
+		}},
+		{"provisional-proof-update-less-chunk-delta-more", w.nUpdate > 0 && fs.ch != nil && len(list(fs.ch, "deltas")) > 0, func() {
+			dropLast(fs.provProof, "operations", "update")
+			dupLast(fs.ch, "deltas")
+		}},
+		{"provisional-proof-update-more-chunk-delta-less", w.nUpdate > 0 && fs.ch != nil && len(list(fs.ch, "deltas")) > 0, func() {
+			dupLast(fs.provProof, "operations", "update")
+			dropLast(fs.ch, "deltas")
+		}},
 		{"provisional-proof-update-count-less", w.nUpdate > 0, func() { dropLast(fs.provProof, "operations", "update"); fs.count-- }},
 		{"provisional-proof-update-count-more", w.nUpdate > 0, func() { dupLast(fs.provProof, "operations", "update") }},
 		{"index-recover-count-less", w.nRecover > 1, func() { dropLast(fs.core, "operations", "recover"); fs.count-- }},
